@@ -102,6 +102,47 @@ def _zone_task(payload):
                                       f"downstream {'rebuilt' if rebuilt else 'NOT rebuilt'} but instant(D){'<' if expect else '>='}max(instant(U), instant(fresh)): "
                                       f"U={render(tU, fU, zone)!r} D={render(tD, fD, zone)!r} fresh={fresh!r}",
                                       (zone, tU, fU, tD, fD, tF, fF)))
+    # ---- the same through longer paths: unstored calls between U and D (their "modified time" is the newest
+    # ancestor's, handed on inside the stale check), and an up-to-date stored value M in between
+    for tU, tD in itertools.product(ins, repeat=2):
+        for fU, fD in itertools.product(FORMS, repeat=2):
+            for shape in ("hop1", "hop2", "mid"):
+                for k, tF in enumerate((None, ins[0], ins[3], ins[6])):
+                    fF = None if tF is None else FORMS[(k + FORMS.index(fU) + FORMS.index(fD)) % 4]
+                    n += 1
+                    plan = uberjob.Plan()
+                    reg = uberjob.Registry()
+                    u = reg.source(plan, TStore(render(tU, fU, zone), 1))
+                    x = u
+                    sm = None
+                    if shape == "mid":
+                        # M was built exactly when U changed, reported in another form than U's
+                        x = plan.call(lambda v: v, x)
+                        sm = TStore(render(max(tU, tF or tU), FORMS[(FORMS.index(fU) + 1) % 4], zone), 1)
+                        reg.add(x, sm)
+                    else:
+                        for _ in range(1 if shape == "hop1" else 2):
+                            x = plan.call(lambda v: v, x)
+                    sd = TStore(render(tD, fD, zone), 0)
+                    d = plan.call(lambda v: v + 1, x)
+                    reg.add(d, sd)
+                    fresh = None if tF is None else render(tF, fF, zone)
+                    try:
+                        uberjob.run(plan, registry=reg, fresh_time=fresh, max_workers=1, progress=None)
+                    except Exception as e:  # noqa
+                        fails.append(("raised", f"run raised {type(e).__name__}: {e.__cause__!r}", (zone, tU, fU, tD, fD, tF, fF, shape)))
+                        continue
+                    rebuilt = sd.writes > 0
+                    expect = tD < max(tU, tF if tF is not None else tU)
+                    what = {"hop1": "one unstored call between U and D", "hop2": "two unstored calls between U and D", "mid": "an up-to-date stored value between U and D"}[shape]
+                    if sm is not None and sm.writes:
+                        fails.append((_classify(zone, fU, fD, fF, tU, tD, tF, ins) + f" ({what})", f"{what}: the up-to-date middle value was rebuilt (U={render(tU, fU, zone)!r}, M={sm.t!r}, fresh={fresh!r})",
+                                      (zone, tU, fU, tD, fD, tF, fF, shape)))
+                    if rebuilt != expect:
+                        fails.append((_classify(zone, fU, fD, fF, tU, tD, tF, ins) + f" ({what})",
+                                      f"{what}: downstream {'rebuilt' if rebuilt else 'NOT rebuilt'} but instant(D){'<' if expect else '>='}max(instant(U), instant(fresh)): "
+                                      f"U={render(tU, fU, zone)!r} D={render(tD, fD, zone)!r} fresh={fresh!r}",
+                                      (zone, tU, fU, tD, fD, tF, fF, shape)))
     # ---- pass with the bundled source stores upstream (ModifiedTimeSource, LiteralSource) in every form
     from uberjob.stores import LiteralSource, ModifiedTimeSource
 
@@ -190,17 +231,17 @@ def run(tier):
         "evaluations": n, "distinct_nontrivial": n,
         "zones": ZONES, "forms": FORMS,
         "rule": ("full product: process zone (TZ + tzset) x t(U), t(D) from 7 instants around the zone's DST fall-back (both sides of the repeated hour) x fresh_time in {none} + the 7 instants x the form of "
-                 "each datetime (naive local with fold as datetime.fromtimestamp gives it, aware UTC, aware +09:00, aware in the process zone); second pass with real JsonFileStores and os.utime; "
+                 "each datetime (naive local with fold as datetime.fromtimestamp gives it, aware UTC, aware +09:00, aware in the process zone); the same through one / two unstored calls and through an up-to-date stored value between U and D; a pass with real JsonFileStores and os.utime; "
                  "every configuration is a distinct case; oracle: D rewritten <=> instant(D) < max(instant(U), instant(fresh_time))"),
         "samples": [{"zone": "America/New_York", "U": "naive 2021-11-07 01:30 fold=1", "D": "naive 2021-11-07 01:50 fold=0", "fresh": None, "expected": "rebuilt"}],
         "exhaustive": True,
     }
     return {"violations": viols, "coverage": cov, "level": "exploration",
-            "assumptions": ["'all zones' is represented by six zones with offsets 0, -5/-4, 0/+1, +5:30, +5:45, +12/+13", "one source -> one stored call; the comparison code is shared by all nodes"]}
+            "assumptions": ["'all zones' is represented by six zones with offsets 0, -5/-4, 0/+1, +5:30, +5:45, +12/+13", "graph shapes: source -> stored call directly, through one or two unstored calls, and through an up-to-date stored value"]}
 
 
 def replay(rep):
-    zone, tU, fU, tD, fD, tF, fF = rep["cfg"]
+    zone = rep["cfg"][0]
     r = _zone_task((zone, "quick"))
     out = [m for k, m, cfg in r["fails"] if list(cfg) == list(rep["cfg"])]
     for m in out:
